@@ -52,9 +52,8 @@ std::string Plan::brief(size_t max_ops) const {
 	return s;
 }
 
-static std::vector<Engine *> g_engines;
-std::vector<Engine *> &all_engines() { return g_engines; }
-void register_engine(Engine *e) { g_engines.push_back(e); }
-Engine *engine_by_name(const std::string &n) { for (auto *e : g_engines) if (n == e->name()) return e; return nullptr; }
+std::vector<Engine *> &all_engines() { static std::vector<Engine *> g; return g; }
+void register_engine(Engine *e) { all_engines().push_back(e); }
+Engine *engine_by_name(const std::string &n) { for (auto *e : all_engines()) if (n == e->name()) return e; return nullptr; }
 
 } // namespace run
